@@ -216,6 +216,14 @@ class Task:
                 # result() can also produce exceptions. We want to ignore
                 # these to be deferred to error handling down the road.
                 pass
+            except BaseException:
+                # A task that ended with an exception that is not an
+                # Exception (e.g. SystemExit) re-raises it from result().
+                # That is the failure of that task and is deferred like
+                # any other; only what is raised in this thread while it
+                # is still waiting (e.g. KeyboardInterrupt) propagates.
+                if not future.done():
+                    raise
         logger.debug('%s done waiting for dependent futures', self)
 
     def _get_all_main_kwargs(self):
